@@ -314,50 +314,7 @@ func c13Profiles(tier Tier) []*explore.Profile {
 		}
 		return p
 	}
-	whole := func(w *world.World) []world.Action {
-		acts := transferMenuLight(w, o)
-		acts = append(acts, supplyMenu(w, o)...)
-		acts = append(acts, roleMenu(w, o, [][]byte{uni.F, uni.S})...)
-		acts = append(acts, freezeMenu(w, o, true)...)
-		acts = append(acts, accountMenu(w, o)...)
-		acts = append(acts, impostorMenu(w, o)...)
-		acts = append(acts, deliveries(w)...)
-		// non-minimal number encodings
-		lz := []byte{0, 1}
-		acts = append(acts,
-			uni.Call(uni.A0, uni.A0, vmcommon.BuiltInFunctionESDTLocalMint, uni.F, []byte{0, 2}),
-			uni.Call(uni.A0, uni.A0, vmcommon.BuiltInFunctionESDTLocalBurn, uni.F, lz),
-			uni.Call(uni.A0, uni.B0, vmcommon.BuiltInFunctionESDTTransfer, uni.F, lz),
-			uni.Call(uni.A0, uni.ESDT, vmcommon.BuiltInFunctionESDTBurn, uni.F, lz),
-			uni.Call(uni.A0, uni.A0, vmcommon.BuiltInFunctionESDTNFTTransfer, uni.S, lz, lz, uni.B0),
-			uni.Call(uni.A0, uni.A0, vmcommon.BuiltInFunctionESDTNFTTransfer, uni.S, lz, lz, uni.C1),
-			uni.Call(uni.A0, uni.A0, vmcommon.BuiltInFunctionESDTNFTAddQuantity, uni.S, lz, lz),
-			uni.Call(uni.A0, uni.A0, vmcommon.BuiltInFunctionESDTNFTBurn, uni.S, lz, lz),
-			uni.Call(uni.A0, uni.A0, vmcommon.BuiltInFunctionESDTNFTCreate, uni.S, lz, []byte("n"), []byte{0, 100}, []byte("h"), []byte("a"), []byte("u")),
-			uni.Call(uni.A0, uni.A0, vmcommon.BuiltInFunctionMultiESDTNFTTransfer, uni.C1, []byte{0, 2}, uni.S, lz, lz, uni.F, []byte{0}, lz),
-			uni.Call(uni.A0, uni.A0, vmcommon.BuiltInFunctionMultiESDTNFTTransfer, uni.B0, lz, uni.F, []byte{0, 0}, lz))
-		// variable-length argument tails with empty arguments in every position (a function that
-		// filters, compacts or reorders its argument list in place shows here)
-		e, u1, u2 := []byte{}, []byte("u1"), []byte("uri-2")
-		for _, tail := range [][][]byte{{e, u2}, {u1, e}, {e, e, u2}, {u1, e, u2}, {u2, u1}} {
-			acts = append(acts,
-				uni.Call(uni.A0, uni.A0, vmcommon.BuiltInFunctionESDTNFTAddURI, append([][]byte{uni.S, uni.Big(1)}, tail...)...),
-				uni.Call(uni.A0, uni.A0, vmcommon.BuiltInFunctionESDTNFTCreate, append([][]byte{uni.S, uni.Big(1), []byte("n"), uni.Big(1), []byte("h"), []byte("a")}, tail...)...),
-				uni.Call(uni.A0, uni.S0, vmcommon.BuiltInFunctionESDTTransfer, append([][]byte{uni.F, uni.Big(1), []byte("f")}, tail...)...),
-				uni.Call(uni.A0, uni.A0, vmcommon.BuiltInFunctionESDTNFTTransfer, append([][]byte{uni.S, uni.Big(1), uni.Big(1), uni.S0, []byte("f")}, tail...)...),
-				uni.Call(uni.A0, uni.A0, vmcommon.BuiltInFunctionMultiESDTNFTTransfer, append([][]byte{uni.S1c, uni.Big(2), uni.S, uni.Big(1), uni.Big(1), uni.F, e, uni.Big(1), []byte("f")}, tail...)...),
-				uni.Call(uni.A0, uni.A0, vmcommon.BuiltInFunctionSaveKeyValue, append([][]byte{[]byte("k"), []byte("v")}, tail[:2]...)...),
-			)
-		}
-		acts = append(acts,
-			uni.Call(uni.A0, uni.A0, vmcommon.BuiltInFunctionSaveKeyValue, []byte("k"), e, []byte("k2"), []byte("v")),
-			uni.Call(uni.A0, uni.A0, vmcommon.BuiltInFunctionSaveKeyValue, []byte("k"), []byte("v"), []byte("k"), e, []byte("k"), []byte("w")),
-			uni.SetRole(uni.B0, uni.S, vmcommon.ESDTRoleNFTBurn, vmcommon.ESDTRoleNFTBurn, vmcommon.ESDTRoleNFTAddQuantity),
-			uni.UnSetRole(uni.A0, uni.S, vmcommon.ESDTRoleNFTBurn, "ESDTRoleUnknown", vmcommon.ESDTRoleNFTBurn),
-			uni.Multi(uni.A0, uni.B0, []uni.Ent{{Tok: uni.F, Nonce: 0, Q: 1}, {Tok: uni.S, Nonce: 1, Q: 1}, {Tok: uni.F, Nonce: 0, Q: 1}}),
-		)
-		return acts
-	}
+	whole := func(w *world.World) []world.Action { return wholeMenu(w, o) }
 	depth := 2
 	if tier.Thorough() {
 		depth = 3
@@ -380,4 +337,50 @@ func C13(tier Tier) int {
 	return RunLedger("C13", tier, c13Profiles(tier), req,
 		"map iteration order cannot be enumerated from outside: independence from it is observed through the 4 executions per transition only (DESIGN.md §7)",
 		"inputs are rebuilt with all byte slices carved from one backing array with 8 sentinel bytes of spare capacity behind each")
+}
+
+// wholeMenu is the union of all menus plus non-minimal encodings and argument-tail variants.
+func wholeMenu(w *world.World, o menuOpts) []world.Action {
+	acts := transferMenuLight(w, o)
+	acts = append(acts, supplyMenu(w, o)...)
+	acts = append(acts, roleMenu(w, o, [][]byte{uni.F, uni.S})...)
+	acts = append(acts, freezeMenu(w, o, true)...)
+	acts = append(acts, accountMenu(w, o)...)
+	acts = append(acts, impostorMenu(w, o)...)
+	acts = append(acts, deliveries(w)...)
+	// non-minimal number encodings
+	lz := []byte{0, 1}
+	acts = append(acts,
+		uni.Call(uni.A0, uni.A0, vmcommon.BuiltInFunctionESDTLocalMint, uni.F, []byte{0, 2}),
+		uni.Call(uni.A0, uni.A0, vmcommon.BuiltInFunctionESDTLocalBurn, uni.F, lz),
+		uni.Call(uni.A0, uni.B0, vmcommon.BuiltInFunctionESDTTransfer, uni.F, lz),
+		uni.Call(uni.A0, uni.ESDT, vmcommon.BuiltInFunctionESDTBurn, uni.F, lz),
+		uni.Call(uni.A0, uni.A0, vmcommon.BuiltInFunctionESDTNFTTransfer, uni.S, lz, lz, uni.B0),
+		uni.Call(uni.A0, uni.A0, vmcommon.BuiltInFunctionESDTNFTTransfer, uni.S, lz, lz, uni.C1),
+		uni.Call(uni.A0, uni.A0, vmcommon.BuiltInFunctionESDTNFTAddQuantity, uni.S, lz, lz),
+		uni.Call(uni.A0, uni.A0, vmcommon.BuiltInFunctionESDTNFTBurn, uni.S, lz, lz),
+		uni.Call(uni.A0, uni.A0, vmcommon.BuiltInFunctionESDTNFTCreate, uni.S, lz, []byte("n"), []byte{0, 100}, []byte("h"), []byte("a"), []byte("u")),
+		uni.Call(uni.A0, uni.A0, vmcommon.BuiltInFunctionMultiESDTNFTTransfer, uni.C1, []byte{0, 2}, uni.S, lz, lz, uni.F, []byte{0}, lz),
+		uni.Call(uni.A0, uni.A0, vmcommon.BuiltInFunctionMultiESDTNFTTransfer, uni.B0, lz, uni.F, []byte{0, 0}, lz))
+	// variable-length argument tails with empty arguments in every position (a function that
+	// filters, compacts or reorders its argument list in place shows here)
+	e, u1, u2 := []byte{}, []byte("u1"), []byte("uri-2")
+	for _, tail := range [][][]byte{{e, u2}, {u1, e}, {e, e, u2}, {u1, e, u2}, {u2, u1}} {
+		acts = append(acts,
+			uni.Call(uni.A0, uni.A0, vmcommon.BuiltInFunctionESDTNFTAddURI, append([][]byte{uni.S, uni.Big(1)}, tail...)...),
+			uni.Call(uni.A0, uni.A0, vmcommon.BuiltInFunctionESDTNFTCreate, append([][]byte{uni.S, uni.Big(1), []byte("n"), uni.Big(1), []byte("h"), []byte("a")}, tail...)...),
+			uni.Call(uni.A0, uni.S0, vmcommon.BuiltInFunctionESDTTransfer, append([][]byte{uni.F, uni.Big(1), []byte("f")}, tail...)...),
+			uni.Call(uni.A0, uni.A0, vmcommon.BuiltInFunctionESDTNFTTransfer, append([][]byte{uni.S, uni.Big(1), uni.Big(1), uni.S0, []byte("f")}, tail...)...),
+			uni.Call(uni.A0, uni.A0, vmcommon.BuiltInFunctionMultiESDTNFTTransfer, append([][]byte{uni.S1c, uni.Big(2), uni.S, uni.Big(1), uni.Big(1), uni.F, e, uni.Big(1), []byte("f")}, tail...)...),
+			uni.Call(uni.A0, uni.A0, vmcommon.BuiltInFunctionSaveKeyValue, append([][]byte{[]byte("k"), []byte("v")}, tail[:2]...)...),
+		)
+	}
+	acts = append(acts,
+		uni.Call(uni.A0, uni.A0, vmcommon.BuiltInFunctionSaveKeyValue, []byte("k"), e, []byte("k2"), []byte("v")),
+		uni.Call(uni.A0, uni.A0, vmcommon.BuiltInFunctionSaveKeyValue, []byte("k"), []byte("v"), []byte("k"), e, []byte("k"), []byte("w")),
+		uni.SetRole(uni.B0, uni.S, vmcommon.ESDTRoleNFTBurn, vmcommon.ESDTRoleNFTBurn, vmcommon.ESDTRoleNFTAddQuantity),
+		uni.UnSetRole(uni.A0, uni.S, vmcommon.ESDTRoleNFTBurn, "ESDTRoleUnknown", vmcommon.ESDTRoleNFTBurn),
+		uni.Multi(uni.A0, uni.B0, []uni.Ent{{Tok: uni.F, Nonce: 0, Q: 1}, {Tok: uni.S, Nonce: 1, Q: 1}, {Tok: uni.F, Nonce: 0, Q: 1}}),
+	)
+	return acts
 }
